@@ -158,6 +158,9 @@ def cases(draw):
             "lang": draw(st.sampled_from(["it", None])),
         },
         "target_language": draw(st.sampled_from([None, "en"])),
+        # an encoding is in effect (the translation function is wrapped
+        # then): the call contract is the same
+        "encoding": draw(st.sampled_from([None, None, "utf-8", "latin-1"])),
     }
 
 
@@ -598,7 +601,10 @@ class I18n(Part):
         if case["implicit_attributes"]:
             cfg["implicit_i18n_attributes"] = set(
                 case["implicit_attributes"])
+        if case.get("encoding"):
+            cfg["encoding"] = case["encoding"]
         detail = {"source": src, "fn": case["fn"],
+                  "encoding": case.get("encoding"),
                   "bindings": case["bindings"],
                   "implicit_translate": case["implicit_translate"],
                   "implicit_attributes": case["implicit_attributes"]}
